@@ -2551,3 +2551,182 @@ func checkScopeNamespaceCreatedExclusively(c *Ctx, rule string) {
 	}
 	c.Floor(rule, "creations of a key scope's namespace bucket", n, 1)
 }
+
+// ---------- wave 13 ----------
+
+// checkEncryptedKeyOnlyClearedByConversion: the wipe that precedes an eviction (MarkUsed, InvalidateAccountCache) and the
+// wipe of Lock() clear CLEAR-TEXT key material; the encrypted private key of an address object is what the next unlock
+// decrypts again, and only the conversion to watching-only drops it. A store of nil into an address's privKeyEncrypted,
+// or a zeroing of it, anywhere else leaves an object (the one the caller was handed, the account's last address) that
+// answers watching-only for a key the wallet owns.
+func checkEncryptedKeyOnlyClearedByConversion(c *Ctx, rule string) {
+	p := c.P
+	conv := p.Func("waddrmgr", "Manager", "ConvertToWatchingOnly")
+	if conv == nil {
+		c.Unresolved(rule, "Manager.ConvertToWatchingOnly")
+		return
+	}
+	allowed := map[*ssa.Function]bool{conv: true}
+	for g := range p.reachSet(conv) {
+		allowed[g] = true
+	}
+	n := 0
+	for _, fn := range p.FuncsIn("waddrmgr") {
+		for _, b := range fn.Blocks {
+			for _, ins := range b.Instrs {
+				var fa *ssa.FieldAddr
+				what := ""
+				switch x := ins.(type) {
+				case *ssa.Store:
+					if f, ok := x.Addr.(*ssa.FieldAddr); ok && isNilConst(x.Val) {
+						fa, what = f, "sets to nil"
+					}
+				case *ssa.Call:
+					if calleeShort(&x.Call) == "Bytes" && len(x.Call.Args) == 1 {
+						if g := x.Call.StaticCallee(); g != nil && strings.HasSuffix(fnPkgPath(g), "internal/zero") {
+							if u, ok := stripConv(x.Call.Args[0]).(*ssa.UnOp); ok {
+								if f, ok := u.X.(*ssa.FieldAddr); ok {
+									fa, what = f, "zeroes"
+								}
+							}
+						}
+					}
+				}
+				if fa == nil {
+					continue
+				}
+				if tn, f := fieldAddrName(fa); tn != "managedAddress" || f != "privKeyEncrypted" {
+					continue
+				}
+				if _, fresh := stripConv(fa.X).(*ssa.Alloc); fresh {
+					continue // a field of the object being constructed
+				}
+				n++
+				top := outermost(fn)
+				c.Check(rule, "encrypted-key-only-cleared-by-conversion:"+fnName(top), ins.Pos(), allowed[top] || allowed[fn],
+					fnName(top)+" "+what+" the ENCRYPTED private key of an address object outside the conversion to watching-only: the object the caller still holds (and the account's last-address mirror) can never be unlocked again and answers watching-only while the wallet is unlocked")
+			}
+		}
+	}
+	c.Floor(rule, "places that drop an address's encrypted private key", n, 1)
+}
+
+// checkSchemaPresenceIsNilness: an account row says whether it carries an overriding address schema; the decision is the
+// nil-ness of the schema pointer and nothing else. A test of the pointee's VALUE in that decision drops a legitimate
+// override whose fields happen to be the zero values (pay-to-pubkey-hash on both branches), and the account issues the
+// scope's address format instead of the one it was imported with.
+func checkSchemaPresenceIsNilness(c *Ctx, rule string) {
+	p := c.P
+	n := 0
+	for _, fn := range p.FuncsIn("waddrmgr") {
+		if !strings.HasPrefix(fn.Name(), "serialize") {
+			continue
+		}
+		var prm *ssa.Parameter
+		for _, q := range fn.Params {
+			if strings.HasSuffix(q.Type().String(), "ScopeAddrSchema") {
+				prm = q
+			}
+		}
+		if prm == nil {
+			continue
+		}
+		// every branch (and every value merged into a bool) that depends on the parameter depends on its nil-ness only
+		for _, b := range fn.Blocks {
+			for _, ins := range b.Instrs {
+				bo, ok := ins.(*ssa.BinOp)
+				if !ok || (bo.Op != token.EQL && bo.Op != token.NEQ) {
+					continue
+				}
+				dep := false
+				for _, side := range []ssa.Value{bo.X, bo.Y} {
+					for _, o := range (&Slicer{P: p, ThroughDeref: true, ThroughFieldsOfAllocs: true}).Origins(side) {
+						if o == ssa.Value(prm) {
+							dep = true
+						}
+						if u, ok := o.(*ssa.UnOp); ok && stripConv(u.X) == ssa.Value(prm) {
+							dep = true
+						}
+					}
+				}
+				if !dep {
+					continue
+				}
+				n++
+				isNilTest := (stripConv(bo.X) == ssa.Value(prm) && isNilConst(bo.Y)) || (stripConv(bo.Y) == ssa.Value(prm) && isNilConst(bo.X))
+				c.Check(rule, "schema-presence-is-nilness:"+fn.Name(), bo.Pos(), isNilTest,
+					fn.Name()+" decides about the overriding address schema by comparing its value, not only its presence: an override equal to the zero value (P2PKH on both branches) is stored as 'no override' and the account issues addresses of the scope's format")
+			}
+		}
+	}
+	c.Floor(rule, "comparisons on the schema parameter of a row serialiser", n, 1)
+}
+
+// checkKeyedAddressRegisteredBeforeHandOut: Lock() wipes the clear-text keys of the address objects it can reach: those in
+// the scoped manager's address cache. A function that builds an address object WITH private key material and hands it to
+// its caller registers it in that cache itself, before it returns — not in a commit hook: if the transaction rolls back
+// the hook never runs, the caller still holds the object, and no later Lock() clears it.
+func checkKeyedAddressRegisteredBeforeHandOut(c *Ctx, rule string) {
+	p := c.P
+	n := 0
+	for _, fn := range p.FuncsIn("waddrmgr") {
+		if fn.Parent() != nil || recvName(fn) != "ScopedKeyManager" {
+			continue
+		}
+		for _, call := range callsNamed(fn, "newManagedAddress") {
+			// the private-key constructor (it is handed the key)
+			g := call.Call.StaticCallee()
+			if g == nil || g.Name() != "newManagedAddress" {
+				continue
+			}
+			n++
+			inCache := func(ins ssa.Instruction) bool {
+				mu, ok := ins.(*ssa.MapUpdate)
+				if !ok {
+					return false
+				}
+				_, f, _, okf := fieldOf(stripConv(mu.Map))
+				return okf && f == "addrs"
+			}
+			bad := p.mustPassToSuccess(fn, call, inCache, nil)
+			c.Check(rule, "keyed-address-registered-before-hand-out:"+fn.Name(), call.Pos(), bad == nil,
+				fnName(fn)+" can hand out an address object that holds a private key without having put it into the address cache itself (the insertion is conditional or deferred to a commit hook): after a rolled-back transaction the caller holds an object no Lock() will ever wipe")
+		}
+	}
+	c.Floor(rule, "constructions of address objects from a private key", n, 1)
+}
+
+// checkSyncStateReadUnderManagerLock: the synced-to stamp is three words that SetSyncedTo replaces under the manager's
+// write lock; a reader without the lock can see the height of one block with the hash of another — a tip the wallet never
+// had. Every read of the stamp in an exported Manager method happens with the manager mutex held.
+func checkSyncStateReadUnderManagerLock(c *Ctx, rule string) {
+	p := c.P
+	n := 0
+	for _, fn := range p.FuncsIn("waddrmgr") {
+		if fn.Parent() != nil || recvName(fn) != "Manager" || fn.Object() == nil || !fn.Object().Exported() {
+			continue
+		}
+		for _, b := range fn.Blocks {
+			for _, ins := range b.Instrs {
+				u, ok := ins.(*ssa.UnOp)
+				if !ok || u.Op != token.MUL {
+					continue
+				}
+				fa, ok := u.X.(*ssa.FieldAddr)
+				if !ok {
+					continue
+				}
+				tn, f := fieldAddrName(fa)
+				if tn != "syncState" || (f != "syncedTo" && f != "startBlock") {
+					continue
+				}
+				n++
+				held, why := p.heldUpward(u, 0, map[*ssa.Function]bool{})
+				ok2 := held["waddrmgr.Manager.mtx"] || held["waddrmgr.Manager.mtx(R)"]
+				c.Check(rule, "sync-state-read-under-manager-lock:"+fn.Name(), u.Pos(), ok2,
+					fmt.Sprintf("Manager.%s reads the %s stamp without holding the manager mutex (held: %s; %s): concurrently with SetSyncedTo it can return a stamp that mixes two blocks", fn.Name(), f, lsString(held), strings.Join(why, "; ")))
+			}
+		}
+	}
+	c.Floor(rule, "reads of the sync stamps in exported Manager methods", n, 1)
+}
